@@ -1,0 +1,59 @@
+//! Verification hooks. Compiled only with `--cfg mpd_client_verif`; never part of a normal build.
+//!
+//! A thread-local event sink that both crates emit into at the points where the state of the
+//! connection / the client loop changes. Single-threaded test runtimes only; events are ordered
+//! by the sink's own sequence.
+
+use std::cell::RefCell;
+
+type Sink = Box<dyn FnMut(&'static str, &[(&'static str, i64)])>;
+
+thread_local! {
+    static SINK: RefCell<Option<Sink>> = const { RefCell::new(None) };
+}
+
+/// Install (or remove) the event sink of the current thread.
+pub fn set_sink(sink: Option<Sink>) {
+    SINK.with(|s| *s.borrow_mut() = sink);
+}
+
+/// Emit one event. Does nothing unless a sink is installed.
+pub fn emit(event: &'static str, fields: &[(&'static str, i64)]) {
+    SINK.with(|s| {
+        if let Ok(mut s) = s.try_borrow_mut() {
+            if let Some(f) = s.as_mut() {
+                f(event, fields);
+            }
+        }
+    });
+}
+
+/// Tells whether a pending `AsyncConnection::receive` future was dropped while suspended at its read,
+/// and whether its response builder held already parsed lines at that point.
+#[derive(Debug, Default)]
+pub struct ReceiveGuard {
+    suspended: bool,
+    in_progress: bool,
+}
+
+impl ReceiveGuard {
+    /// About to await the transport.
+    pub fn suspend(&mut self, in_progress: bool) {
+        self.suspended = true;
+        self.in_progress = in_progress;
+    }
+
+    /// The await returned successfully.
+    pub fn resume(&mut self) {
+        self.suspended = false;
+    }
+}
+
+impl Drop for ReceiveGuard {
+    fn drop(&mut self) {
+        if self.suspended {
+            // dropped at the await point (cancelled), or the read itself returned an error
+            emit("recv_dropped", &[("in_progress", self.in_progress as i64)]);
+        }
+    }
+}
